@@ -3,7 +3,9 @@
 //! lands in one ordered log from which crash images are rebuilt.
 //!
 //! usage: storage_run --dir DIR --meta META.json --seed N [--txns N] [--memtable BYTES] [--levels N] [--vlog]
-//!                    [--versioning] [--committers N] [--gen G]
+//!                    [--versioning] [--committers N] [--gen G] [--manual]
+//! --manual: rotation, flush of the oldest immutable memtable and compaction are driven by the seeded script (hooks)
+//! instead of the background tasks' timing, so that several immutable memtables are pending at crash instants.
 //! With --gen > 0 the directory already holds a recovered store (generation G of crash -> recover -> commit).
 //!
 //! META.json (written at the end): options to reopen with, and per transaction the logical effect
@@ -66,18 +68,19 @@ fn main() {
 	let first_txn: u64 = argval("--first-txn").map(|s| s.parse().unwrap()).unwrap_or(1);
 	let vlog = flag("--vlog");
 	let versioning = flag("--versioning");
+	let manual = flag("--manual");
 	let l0: usize = argval("--l0").map(|s| s.parse().unwrap()).unwrap_or(2);
 
 	let rt = tokio::runtime::Builder::new_multi_thread().worker_threads(3).enable_all().build().unwrap();
 	let _g = rt.enter();
 	let mut opts = Options::new()
 		.with_path(dir.clone().into())
-		.with_max_memtable_size(memtable)
+		.with_max_memtable_size(if manual { 8 << 20 } else { memtable })
 		.with_level_count(levels)
 		.with_block_size(512)
 		.with_enable_vlog(vlog || versioning);
 	opts.level0_max_files = l0;
-	let mut opts = opts.with_l0_stall_threshold(l0.max(2) * 4).with_memtable_stall_threshold(4);
+	let mut opts = opts.with_l0_stall_threshold(l0.max(2) * 4).with_memtable_stall_threshold(if manual { 64 } else { 4 });
 	if versioning {
 		opts = opts.with_versioning(true, 0).with_vlog_value_threshold(0);
 	} else if vlog {
@@ -155,6 +158,24 @@ fn main() {
 			}
 			2 | 3 => rt.block_on(async { tokio::time::sleep(std::time::Duration::from_millis(15)).await }),
 			_ => {}
+		}
+		if manual {
+			match rng.random_range(0..20) {
+				0..=5 => {
+					let _ = tree.verif_rotate();
+				}
+				6..=9 => {
+					let _ = tree.verif_flush_one();
+					// the WAL clean-up of a flush is a spawned task: let it run now and then only
+					if rng.random_range(0..2) == 0 {
+						rt.block_on(async { tokio::time::sleep(std::time::Duration::from_millis(5)).await });
+					}
+				}
+				10 => {
+					let _ = tree.verif_compact_auto();
+				}
+				_ => {}
+			}
 		}
 	}
 	// let background work settle a little, then either close cleanly or just stop (both are crash-swept)
